@@ -1,6 +1,11 @@
 //! A checking global allocator: remembers (size, align) of every live block in a fixed open-addressing
 //! table and counts `dealloc`/`realloc` calls whose layout differs from the one the block was obtained
 //! with (the contract of `GlobalAlloc`).  Single-threaded use only (the harness is).
+//!
+//! Leak oracle (C20, "garbage is reclaimed"): every block also gets a serial number, and the table
+//! keeps the number and the byte total of the live blocks.  `live()` is the system allocator's view of
+//! what has not been handed back; `serial_of(p)` tells whether the block that was at `p` at some
+//! earlier moment is still the one that is there now (an address can be re-used by a later block).
 use std::alloc::{GlobalAlloc, Layout, System};
 use std::sync::atomic::{AtomicUsize, Ordering};
 
@@ -10,11 +15,14 @@ struct Slot {
   ptr: usize,
   size: usize,
   align: usize,
+  serial: usize,
 }
 
 static mut TABLE: [Slot; CAP] = unsafe { std::mem::zeroed() };
 pub static MISMATCHES: AtomicUsize = AtomicUsize::new(0);
 pub static LIVE_BLOCKS: AtomicUsize = AtomicUsize::new(0);
+pub static LIVE_BYTES: AtomicUsize = AtomicUsize::new(0);
+pub static SERIAL: AtomicUsize = AtomicUsize::new(0);
 pub static LAST_MISMATCH: [AtomicUsize; 4] = [AtomicUsize::new(0), AtomicUsize::new(0), AtomicUsize::new(0), AtomicUsize::new(0)];
 const TOMB: usize = 1;
 
@@ -31,7 +39,9 @@ unsafe fn insert(p: usize, size: usize, align: usize) {
       s.ptr = p;
       s.size = size;
       s.align = align;
+      s.serial = SERIAL.fetch_add(1, Ordering::Relaxed) + 1;
       LIVE_BLOCKS.fetch_add(1, Ordering::Relaxed);
+      LIVE_BYTES.fetch_add(size, Ordering::Relaxed);
       return;
     }
     i = (i + 1) & (CAP - 1);
@@ -46,6 +56,7 @@ unsafe fn remove(p: usize) -> Option<(usize, usize)> {
     if s.ptr == p {
       s.ptr = TOMB;
       LIVE_BLOCKS.fetch_sub(1, Ordering::Relaxed);
+      LIVE_BYTES.fetch_sub(s.size, Ordering::Relaxed);
       return Some((s.size, s.align));
     }
     if s.ptr == 0 || n > CAP {
@@ -119,6 +130,49 @@ pub fn size_of(p: usize) -> Option<usize> {
     i = (i + 1) & (CAP - 1);
     n += 1;
   }
+}
+
+/// serial number of the live block at `p` (None: no live block of this allocator starts there)
+pub fn serial_of(p: usize) -> Option<usize> {
+  let mut i = hash(p);
+  let mut n = 0;
+  loop {
+    let s = unsafe { &*std::ptr::addr_of!(TABLE[i]) };
+    if s.ptr == p {
+      return Some(s.serial);
+    }
+    if s.ptr == 0 || n > CAP {
+      return None;
+    }
+    i = (i + 1) & (CAP - 1);
+    n += 1;
+  }
+}
+
+/// (blocks, bytes) obtained from the system allocator and not handed back so far
+pub fn live() -> (usize, usize) {
+  (LIVE_BLOCKS.load(Ordering::Relaxed), LIVE_BYTES.load(Ordering::Relaxed))
+}
+
+/// serial number the next block will get (blocks with a serial >= this one are younger than now)
+pub fn next_serial() -> usize {
+  SERIAL.load(Ordering::Relaxed) + 1
+}
+
+/// the live blocks with a serial number >= `since`: (address, size, serial); a table scan, for reports only
+pub fn live_since(since: usize, limit: usize) -> Vec<(usize, usize, usize)> {
+  let floor = next_serial(); // the result vector itself is younger than this
+  let mut found: Vec<(usize, usize, usize)> = Vec::with_capacity(limit + 1);
+  for i in 0..CAP {
+    let s = unsafe { &*std::ptr::addr_of!(TABLE[i]) };
+    if s.ptr > TOMB && s.serial >= since && s.serial < floor {
+      found.push((s.ptr, s.size, s.serial));
+      if found.len() >= limit {
+        break;
+      }
+    }
+  }
+  found
 }
 
 /// is the checking allocator installed in this process (does it know any block)?
